@@ -1,44 +1,48 @@
 /- The allocator identity (`Doc.alloc`, the tag of the allocator a document was constructed with) and the string-node overhead
-   are never changed by a document operation: scalar stores, allocation, release, clearing, the deep copy, `clearAll`.
+   and the string-length limit `maxStrLen`
+   are never changed by a document operation: scalar stores, allocation, release, clearing, adding and removing elements and
+   members, the deep copy, `clearAll`.
    Used by AJ/Props/C04DocCopy.lean: the copy built by `copydoc` keeps the allocator it was created with. -/
 import AJ.Model.DL
 namespace DL
 open JD (Byte)
 
 /-- the construction-time constants of a document -/
-def SameId (d d' : Doc) : Prop := d'.alloc = d.alloc ∧ d'.strOverhead = d.strOverhead ∧ d'.g = d.g
+def SameId (d d' : Doc) : Prop := d'.alloc = d.alloc ∧ d'.strOverhead = d.strOverhead ∧ d'.g = d.g ∧ d'.maxStrLen = d.maxStrLen
 
-theorem SameId.refl (d : Doc) : SameId d d := ⟨rfl, rfl, rfl⟩
+theorem SameId.refl (d : Doc) : SameId d d := ⟨rfl, rfl, rfl, rfl⟩
 theorem SameId.trans {a b c : Doc} (h1 : SameId a b) (h2 : SameId b c) : SameId a c :=
-  ⟨h2.1.trans h1.1, h2.2.1.trans h1.2.1, h2.2.2.trans h1.2.2⟩
+  ⟨h2.1.trans h1.1, h2.2.1.trans h1.2.1, h2.2.2.1.trans h1.2.2.1, h2.2.2.2.trans h1.2.2.2⟩
 
-theorem sameId_set (d : Doc) (l : Loc) (v : VData) : SameId d (d.set l v) := by cases l <;> exact ⟨rfl, rfl, rfl⟩
+theorem sameId_set (d : Doc) (l : Loc) (v : VData) : SameId d (d.set l v) := by cases l <;> exact ⟨rfl, rfl, rfl, rfl⟩
 
 theorem sameId_setNext (d : Doc) (i n : Nat) : SameId d (d.setNext i n) := by
-  simp only [Doc.setNext]; split <;> exact ⟨rfl, rfl, rfl⟩
+  simp only [Doc.setNext]; split <;> exact ⟨rfl, rfl, rfl, rfl⟩
 
 theorem sameId_derefString (d : Doc) (n : Nat) : SameId d (d.derefString n) := by
   simp only [Doc.derefString]
   split
   · exact SameId.refl d
-  · split <;> exact ⟨rfl, rfl, rfl⟩
+  · split <;> exact ⟨rfl, rfl, rfl, rfl⟩
 
 theorem sameId_saveString (d : Doc) (s : List Byte) : SameId d (d.saveString s).2 := by
   simp only [Doc.saveString]
   split
-  · exact ⟨rfl, rfl, rfl⟩
-  · generalize d.pl.alloc (s.length + d.strOverhead) = q
-    obtain ⟨ok, pl⟩ := q
-    simp only
-    split <;> exact ⟨rfl, rfl, rfl⟩
+  · exact ⟨rfl, rfl, rfl, rfl⟩
+  · split
+    · exact ⟨rfl, rfl, rfl, rfl⟩
+    · generalize d.pl.alloc (s.length + d.strOverhead) = q
+      obtain ⟨ok, pl⟩ := q
+      simp only
+      split <;> exact ⟨rfl, rfl, rfl, rfl⟩
 
 theorem sameId_allocExt (d : Doc) (p : Int) : SameId d (d.allocExt p).2 := by
-  simp only [Doc.allocExt]; split <;> exact ⟨rfl, rfl, rfl⟩
+  simp only [Doc.allocExt]; split <;> exact ⟨rfl, rfl, rfl, rfl⟩
 
 theorem sameId_allocVariant (d : Doc) : SameId d d.allocVariant.2 := by
-  simp only [Doc.allocVariant]; split <;> exact ⟨rfl, rfl, rfl⟩
+  simp only [Doc.allocVariant]; split <;> exact ⟨rfl, rfl, rfl, rfl⟩
 
-theorem sameId_freeCell (d : Doc) (id : Nat) : SameId d (d.freeCell id) := ⟨rfl, rfl, rfl⟩
+theorem sameId_freeCell (d : Doc) (id : Nat) : SameId d (d.freeCell id) := ⟨rfl, rfl, rfl, rfl⟩
 
 theorem sameId_walkFree (free1 : Doc → Nat → Doc) (h1 : ∀ d id, SameId d (free1 d id)) :
     ∀ (w : Nat) (d : Doc) (id : Nat), SameId d (walkFree free1 w d id) := by
@@ -237,6 +241,64 @@ theorem sameId_copyIntoF : ∀ (f : Nat) (d : Doc) (l : Loc) (src : Doc) (sv : V
 theorem sameId_copyInto (d : Doc) (l : Loc) (src : Doc) (sv : VData) : SameId d (copyInto d l src sv) :=
   sameId_copyIntoF _ d l src sv
 
-theorem sameId_clearAll (d : Doc) : SameId d d.clearAll := ⟨rfl, rfl, rfl⟩
+theorem sameId_clearAll (d : Doc) : SameId d d.clearAll := ⟨rfl, rfl, rfl, rfl⟩
+
+theorem sameId_addElement (d : Doc) (l : Loc) : SameId d (d.addElement l).2 := by
+  simp only [Doc.addElement]
+  have h1 := sameId_allocVariant d
+  generalize d.allocVariant = r1 at h1 ⊢
+  obtain ⟨m1, d1⟩ := r1
+  cases m1 with
+  | none => exact h1
+  | some id => exact h1.trans (sameId_appendOne _ _ _)
+
+theorem sameId_pad (l : Loc) : ∀ (fuel : Nat) (d : Doc) (n : Nat) (last : Option Nat),
+    SameId d (Doc.getOrAddElement.pad l fuel d n last).2 := by
+  intro fuel
+  induction fuel with
+  | zero => intro d n last; exact SameId.refl d
+  | succ fuel ih =>
+    intro d n last
+    simp only [Doc.getOrAddElement.pad]
+    split
+    · exact SameId.refl d
+    · have h1 := sameId_addElement d l
+      generalize d.addElement l = r1 at h1 ⊢
+      obtain ⟨m1, d1⟩ := r1
+      cases m1 with
+      | none => exact h1
+      | some id => exact h1.trans (ih _ _ _)
+
+theorem sameId_getOrAddElement (d : Doc) (l : Loc) (index : Nat) : SameId d (d.getOrAddElement l index).2 := by
+  unfold Doc.getOrAddElement
+  extract_lets d0
+  have h0 : SameId d d0 := by
+    simp only [d0]
+    split
+    · exact sameId_set _ _ _
+    · exact SameId.refl d
+  clear_value d0
+  split
+  · extract_lets ch
+    split
+    · exact h0
+    · exact h0.trans (sameId_pad l _ _ _ _)
+  · exact h0
+
+theorem sameId_removeOne (d : Doc) (l : Loc) (id : Nat) : SameId d (d.removeOne l id) := by
+  have pre : ∀ (o : Option Nat) (n : Nat), SameId d (match o with | some p => d.setNext p n | none => d) := by
+    intro o n
+    cases o with
+    | none => exact SameId.refl d
+    | some p => exact sameId_setNext _ _ _
+  simp only [Doc.removeOne]
+  split
+  · exact (pre _ _).trans ((sameId_set _ _ _).trans (sameId_freeVariant _ _))
+  · exact (pre _ _).trans ((sameId_set _ _ _).trans (sameId_freeVariant _ _))
+  · exact SameId.refl d
+
+theorem sameId_removePair (d : Doc) (l : Loc) (k v : Nat) : SameId d (d.removePair l k v) := by
+  simp only [Doc.removePair]
+  exact (sameId_setNext _ _ _).trans ((sameId_freeVariant _ _).trans (sameId_removeOne _ _ _))
 
 end DL
